@@ -40,6 +40,22 @@ Definition covered_with_reason : list (site * string) := [
    "each dirty account writes its own leaf of the account trie (Proofs.write_leaves_order_indep); order matters only for which database error is reported first");
   (S "src/storage/account/accountdb.go" "AccountDB.Finalise" "map-range" "adb.accountObjectsDirty : map[common.Address]struct{}",
    "each dirty account updates or deletes its own leaf of the account trie (Proofs.write_leaves_order_indep)");
+  (S "src/core/blockchain.go" "blockChain.QueryBlockHeaderByHeight" "local-store-result-used" "chain.heightDB.Get(..) : db.Database.Get",
+   "BLOCKHASH source of situations fullverify/casting: the main chain's height index. A block is verified/cast on top of the local chain (PreHash = top), so the index below it holds the block's canonical ancestors; the harness executes through this real context and checks the stored hashes against the ancestors it put there (C01/chain-context:main)");
+  (S "src/core/blockchain.go" "blockChain.QueryBlockHeaderByHeight" "local-store-result-used" "core.blockChain : chain.topBlocks.Get(..)",
+   "write-through LRU of the height index keyed by height: filled by addBlockOnChain with the header it indexes, dropped by remove for the height it unindexes; same answers as the index");
+  (S "src/core/fork_block.go" "blockChainFork.getBlock" "local-store-result-used" "fork.db.Get(..) : db.Database.Get",
+   "BLOCKHASH source of situation fork: the sync session's fork DB in front of the main chain. Correct only while the fork DB holds exactly the current session's branch (refreshBlockForkDB / destroy); searched on every run: blocks executed as fork after abandoned sessions must give the outcome of a node whose main chain is the block's ancestor chain (C01/chain-context:fork-vs-verify)");
+  (S "src/core/fork_group.go" "groupChainFork.getGroupById" "local-store-result-used" "fork.db.Get(..) : db.Database.Get",
+   "verify group of the block during fork sync (reward shares): group data is consensus-replicated outside the account state (group chain, properties C13/C19); the harness supplies the group through stubs");
+  (S "src/core/groupchain.go" "groupChain.getGroupByHeight" "local-store-result-used" "chain.groups.Get(..) : db.Database.Get",
+   "group chain store: consensus-replicated group data outside the account state (C19: the store is a function of the accepted group history)");
+  (S "src/core/groupchain.go" "groupChain.getGroupById" "local-store-result-used" "chain.groups.Get(..) : db.Database.Get",
+   "group chain store: consensus-replicated group data outside the account state (C19: the store is a function of the accepted group history)");
+  (S "src/storage/account/accountdatasource.go" "storageDB.ContractCode" "local-store-result-used" "account.storageDB : db.codeCache.Get(..)",
+   "read side of the content-addressed code cache (key = code hash)");
+  (S "src/storage/account/accountdatasource.go" "storageDB.ContractCodeSize" "local-store-result-used" "account.storageDB : db.codeSizeCache.Get(..)",
+   "read side of the content-addressed code size cache (key = code hash)");
   (S "src/storage/account/accountdatasource.go" "storageDB.ContractCode" "singleton-write" "account.storageDB : call db.codeCache.Set",
    "process-local cache keyed by the FULL content: key = code hash, value = the code with that hash read from the node store; a hit returns what the store would return");
   (S "src/storage/account/accountdatasource.go" "storageDB.ContractCode" "singleton-write" "account.storageDB : call db.codeSizeCache.Add",
